@@ -58,6 +58,18 @@ CLAIMED = {
              "homogeneous or not, rejected inputs).",
         technique="TLA+ spec (Degree, MC_C08) model-checked exhaustively with TLC; spec->code replay of every transition",
         design="4 C08"),
+    "C09": dict(
+        text="All histories (depth 3-4) of the three control-point setters, weight scaling and reads on rational curves, surfaces and volumes: "
+             "TLC checks view consistency in every state and that scaling weights moves no point; every history is replayed and the three "
+             "views are read back in two orders; helper conversions, B-spline<->NURBS conversion and the weighted grid as pure cases.",
+        technique="TLA+ state machine (Geomdl view actions, MC_C09, MC_C09b) checked by TLC; spec->code replay of every history",
+        design="4 C09"),
+    "C12": dict(
+        text="TLC enumerates every interleaving (depth 3-4) of 12 public mutators and 6 readers on rational/non-rational curves, surfaces and a "
+             "volume, and of container reads/additions/element edits; after each history every derived view of the driven object is "
+             "compared with a twin freshly built from the spec's definition; deep-copy independence is checked in both directions.",
+        technique="TLA+ state machine (Geomdl, MC_C12, MC_C12c) enumerated by TLC; spec->code replay of every history against a fresh twin",
+        design="4 C12"),
 }
 
 PENDING_REASON = "check not built yet (work in progress, see DESIGN.md section 8 build order)"
